@@ -101,13 +101,11 @@ func (p *Parser) termOf(o reflect.Value) (Term, error) {
 
 func (p *Parser) next() (Token, error) {
 	if p.buf.empty() {
+		// A failed read (e.g. end of input) takes a slot as well so that backup() after it stays in step.
 		t, err := p.lexer.Token()
-		if err != nil {
-			return Token{}, err
-		}
-		p.buf.put(t)
+		p.buf.put(t, err)
 	}
-	return p.buf.get(), nil
+	return p.buf.get()
 }
 
 func (p *Parser) backup() {
@@ -914,20 +912,21 @@ func doubleQuotedUnescape(s string) string {
 
 type tokenRingBuffer struct {
 	buf        [4]Token
+	errs       [4]error
 	start, end int
 }
 
-func (b *tokenRingBuffer) put(t Token) {
-	b.buf[b.end] = t
+func (b *tokenRingBuffer) put(t Token, err error) {
+	b.buf[b.end], b.errs[b.end] = t, err
 	b.end++
 	b.end %= len(b.buf)
 }
 
-func (b *tokenRingBuffer) get() Token {
-	t := b.buf[b.start]
+func (b *tokenRingBuffer) get() (Token, error) {
+	t, err := b.buf[b.start], b.errs[b.start]
 	b.start++
 	b.start %= len(b.buf)
-	return t
+	return t, err
 }
 
 func (b *tokenRingBuffer) current() Token {
